@@ -104,7 +104,10 @@ def _next_case():
             du = now
         elif du_kind == "now+1us":
             du = now + 1
-        return {"period_us": p, "base_us": b, "now_us": now, "delay_until_us": du, "kind": kind, "du_kind": du_kind}
+        # the message may carry the (off-grid) time of its latest delivery - e.g. a retry back-off that has since passed; the period
+        # grid stays anchored at the time base
+        net = draw(st.one_of(st.none(), st.none(), st.integers(1, 3 * p).map(lambda d: now - d)))
+        return {"period_us": p, "base_us": b, "now_us": now, "delay_until_us": du, "kind": kind, "du_kind": du_kind, "net_us": net}
 
     return build()
 
@@ -126,13 +129,14 @@ def run_next(case: dict) -> Outcome:
     du = None if du_us is None else vclock.to_v(vclock.EPOCH + timedelta(microseconds=du_us))
     with vclock.Pinned(now_us):
         now = vclock.VDateTime.now()
-        params = Parameters(delay=DelayProperties(delay_until=du, defer_by=p), timestamp=vclock.to_v(base))
+        net = None if case.get("net_us") is None else vclock.to_v(vclock.EPOCH + timedelta(microseconds=case["net_us"]))
+        params = Parameters(delay=DelayProperties(delay_until=du, defer_by=p, next_execution_time=net), timestamp=vclock.to_v(base))
         try:
             nxt = params.compute_next_execution_time
         except Exception as e:  # noqa: BLE001
             out.v("next-raises", f"compute_next_execution_time raised {type(e).__name__}: {e} for {case}")
             return out
-    out.cls("now:" + case["kind"], "delay_until:" + case["du_kind"])
+    out.cls("now:" + case["kind"], "delay_until:" + case["du_kind"], "after-a-retry" if case.get("net_us") is not None else "fresh")
     out.nontrivial = case["kind"] in ("before", "at", "multiple", "multiple+1us", "multiple-1us")
     if nxt is None:
         out.v("next-none", f"periodic job has no next execution time for {case}")
